@@ -294,6 +294,29 @@ class Program:
                                 if want and cur != want and want not in all_attrs and cur not in known_attr_names \
                                         and cur.startswith("_"):
                                     mapping[cur] = want
+        # any other private method that was renamed consistently: a method of the validated tree is
+        # missing, exactly one new private method of the same class has its fingerprint
+        from .inline import fingerprint, load_inventory, load_sig_inventory
+        inv = load_inventory() or set()
+        sigs = load_sig_inventory()
+        if sigs:
+            all_names = {n.attr for (_, _, t) in self.modules.values() for n in ast.walk(t) if isinstance(n, ast.Attribute)} | \
+                        {n.name for (_, _, t) in self.modules.values() for n in ast.walk(t) if isinstance(n, ast.FunctionDef)}
+            for (_, _, t) in self.modules.values():
+                for c in t.body:
+                    if not isinstance(c, ast.ClassDef):
+                        continue
+                    present = {m.name: m for m in c.body if isinstance(m, ast.FunctionDef)}
+                    missing = [k.split(".", 1)[1] for k in sigs if k.startswith(c.name + ".")
+                               and k.split(".", 1)[1] not in present and k.split(".", 1)[1] not in mapping.values()
+                               and k.split(".", 1)[1] not in all_names]
+                    fresh = [m for nm, m in present.items() if nm.startswith("_") and not nm.startswith("__")
+                             and f"{c.name}.{nm}" not in inv and nm not in mapping]
+                    for old_name in missing:
+                        want = sigs[f"{c.name}.{old_name}"]
+                        cands = [m for m in fresh if fingerprint(m) == want]
+                        if len(cands) == 1 and sum(1 for o in missing if sigs[f"{c.name}.{o}"] == want) == 1:
+                            mapping[cands[0].name] = old_name
         mapping = {k: v for k, v in mapping.items() if k != v}
         if not mapping:
             return
